@@ -172,6 +172,9 @@ struct Flow {
     touched_slot: Option<usize>,
     was_liquidation: bool,
     liquidatable_before: Option<bool>,
+    /// a decrease closed the position with nothing left (no output, no collateral): (fees other than funding in the collateral
+    /// token, index of the collateral token, value of one unit of the pnl token in collateral-token units)
+    closed_empty: Option<(i128, usize, i128)>,
 }
 
 impl Ph {
@@ -273,6 +276,11 @@ impl Ph {
         let short = w(st.m.funding_shortfall[o]) - w(shortfall0[o]);
         f.funding_charged[o] = w(*rep.fees().funding_fees().amount()) - short;
         f.touched_slot = Some(i);
+        if rep.should_remove() && *rep.output_amount() == 0 && *rep.secondary_output_amount() == 0 && p.collateral == 0 {
+            let fees = rep.fees().total_cost_excluding_funding().map(w).unwrap_or(0);
+            let (cp, pp) = if o == 0 { (pr.long_token_price.min, if s == 0 { pr.long_token_price.min } else { pr.short_token_price.min }) } else { (pr.short_token_price.min, if s == 0 { pr.long_token_price.min } else { pr.short_token_price.min }) };
+            f.closed_empty = Some((fees, o, w(pp) / w(cp).max(1)));
+        }
         if rep.should_remove() && (p.size_usd != 0 || p.size_tokens != 0 || p.collateral != 0) {
             f.removed_nonzero = true;
         }
@@ -729,7 +737,12 @@ impl Machine for Ph {
                         let d_res = (n.ledger[t] - accounted(&n.m, t)) - (s.ledger[t] - accounted(&s.m, t));
                         let expect = f.funding_charged[t] - f.claimable_out[t];
                         if d_res != expect {
-                            out.fail("C08/holdings_not_conserved", format!("{a:?}: token {t}: paid in {} out {} claimable funding out {}, accounted holdings moved by {}, funding collected {} => unexplained {}", f.paid_in[t], f.paid_out[t], f.claimable_out[t], accounted(&n.m, t) - accounted(&s.m, t), f.funding_charged[t], d_res - expect));
+                            // a close whose last costs are worth less than one unit of the pnl token: the remaining cost is converted into pnl
+                            // tokens rounding down, becomes zero and counts as paid, and the fees (other than funding) are credited to the pool
+                            // and the fee receiver in full although the collateral no longer covered them
+                            let rounded_away = matches!(f.closed_empty, Some((fees, ct, unit)) if ct == t && d_res < expect && expect - d_res <= fees && expect - d_res < unit);
+                            let key = if rounded_away { "C08/holdings_not_conserved/uncollected_fees_credited_when_the_remaining_cost_is_below_one_pnl_token_unit" } else { "C08/holdings_not_conserved" };
+                            out.fail(key, format!("{a:?}: token {t}: paid in {} out {} claimable funding out {}, accounted holdings moved by {}, funding collected {} => unexplained {}", f.paid_in[t], f.paid_out[t], f.claimable_out[t], accounted(&n.m, t) - accounted(&s.m, t), f.funding_charged[t], d_res - expect));
                         }
                     }
                 }
